@@ -15,6 +15,12 @@ Proof.
   intros [Hx|Hx]; [apply Z.eqb_neq in H1; contradiction | now apply IH].
 Qed.
 
+Lemma nodup_snoc : forall (l : list Z) p, NoDup l -> ~ In p l -> NoDup (l ++ [p]).
+Proof.
+  induction l as [|x r IH]; cbn; intros p Hn Hp; [constructor; [tauto | constructor]|].
+  inv Hn. constructor; [|apply IH; tauto]. rewrite in_app_iff. cbn. intros [H|[H|[]]]; [contradiction | subst; tauto].
+Qed.
+
 Lemma remove_first_map : forall p q, map fst (remove_first p q) = remove_pid p (map fst q).
 Proof.
   induction q as [|e r IH]; cbn; [reflexivity|]. destruct (fst e =? p); [reflexivity|]. cbn. now rewrite IH.
@@ -39,14 +45,12 @@ Proof.
     destruct (0 <? value s) eqn:Hpos; cbn [fst]; unfold Inv; cbn.
     + assert (queue s = []) by (destruct (queue s); [reflexivity | assert (value s = 0) by (apply Hq; congruence); lia]).
       repeat split; try lia; try assumption; intros H'; congruence.
-    + repeat split; try lia. rewrite map_app. cbn. apply NoDup_app_intro; [assumption | constructor; [cbn; tauto | constructor] |].
-      intros x Hx [Hy|[]]. subst. now apply (in_queue_false p (queue s) Hin).
+    + repeat split; try lia. rewrite map_app. cbn. apply nodup_snoc; [assumption | now apply in_queue_false].
   - destruct (in_queue p (queue s)) eqn:Hin; [cbn; unfold Inv; auto|]. unfold acquire_code.
     destruct (0 <? value s) eqn:Hpos; cbn [fst]; unfold Inv; cbn.
     + assert (queue s = []) by (destruct (queue s); [reflexivity | assert (value s = 0) by (apply Hq; congruence); lia]).
       repeat split; try lia; try assumption; intros H'; congruence.
-    + repeat split; try lia. rewrite map_app. cbn. apply NoDup_app_intro; [assumption | constructor; [cbn; tauto | constructor] |].
-      intros x Hx [Hy|[]]. subst. now apply (in_queue_false p (queue s) Hin).
+    + repeat split; try lia. rewrite map_app. cbn. apply nodup_snoc; [assumption | now apply in_queue_false].
   - destruct (in_queue p (queue s)) eqn:Hin; [cbn; unfold Inv; auto|]. unfold release_code.
     destruct (queue s) as [|e r] eqn:Hqs; cbn [fst]; unfold Inv; cbn.
     + repeat split; try lia; try constructor; congruence.
@@ -168,17 +172,29 @@ Proof.
   apply has_timer_in in Ht. rewrite Hq' in Ht. rewrite Hq in Hn. cbn in Hn. inv Hn. contradiction.
 Qed.
 
+Lemma not_in_in_queue : forall p q, ~ In p (map fst q) -> in_queue p q = false.
+Proof.
+  induction q as [|e r IH]; cbn; [reflexivity|]. intros H. apply orb_false_iff. split.
+  - apply Z.eqb_neq. intros He. apply H. now left.
+  - apply IH. intros Hin. apply H. now right.
+Qed.
+
+Lemma remove_first_not_in : forall p q, NoDup (map fst q) -> in_queue p (remove_first p q) = false.
+Proof.
+  induction q as [|e r IH]; cbn [map remove_first]; intros Hn; [reflexivity|]. inv Hn.
+  destruct (fst e =? p) eqn:He.
+  - apply Z.eqb_eq in He. subst. now apply not_in_in_queue.
+  - change (in_queue p (e :: remove_first p r)) with ((fst e =? p) || in_queue p (remove_first p r)).
+    rewrite He. cbn [orb]. now apply IH.
+Qed.
+
 (* a waiter that timed out is gone: a later release does not serve it *)
 Theorem timed_out_is_gone : forall fx c ops p s', 0 <= c ->
   step fx (exec fx c ops) (Fire p) = (s', TimedOut) -> in_queue p (queue s') = false.
 Proof.
   intros fx c ops p s' Hc Hs. destruct (exec_inv fx c ops Hc) as (_ & _ & _ & Hn).
   destruct (timeout_consumes_nothing fx _ p s' Hs) as (_ & _ & _ & Hq & Ht). rewrite Hq.
-  set (q := queue (exec fx c ops)) in *. clearbody q. clear Hs Hq.
-  induction q as [|e r IH]; [reflexivity|]. cbn in *. inv Hn. destruct (fst e =? p) eqn:He.
-  - apply Z.eqb_eq in He. destruct (in_queue p r) eqn:Hin; [|reflexivity]. exfalso. apply H1. rewrite He.
-    clear -Hin. induction r as [|x r' IHr]; cbn in *; [discriminate|]. apply orb_true_iff in Hin. destruct Hin as [H|H]; [left; now apply Z.eqb_eq | right; auto].
-  - cbn. rewrite He. cbn. apply IH; [assumption|]. cbn in Ht. now rewrite He in Ht.
+  now apply remove_first_not_in.
 Qed.
 
 (* when does wait_for arm a timeout: repaired code, every t >= 0 *)
@@ -186,8 +202,12 @@ Theorem armed_iff_nonnegative : forall s p t, in_queue p (queue s) = false -> va
   snd (step true s (AcquireTimeout p t)) = Blocked (0 <=? t) /\
   (0 <= t -> snd (step true (fst (step true s (AcquireTimeout p t))) (Fire p)) = TimedOut).
 Proof.
-  intros s p t Hin Hv. unfold step at 2 3. rewrite Hin. unfold acquire_code.
-  assert (Hpos : (0 <? value s) = false) by lia. rewrite Hpos. cbn [snd fst arms]. split; [reflexivity|].
+  intros s p t Hin Hv.
+  assert (Hpos : (0 <? value s) = false) by lia.
+  assert (Hst : step true s (AcquireTimeout p t) =
+                (mkSem (value s) (queue s ++ [(p, 0 <=? t)]) (grants s) (releases s), Blocked (0 <=? t))).
+  { unfold step. rewrite Hin. unfold acquire_code. rewrite Hpos. reflexivity. }
+  rewrite Hst. cbn [fst snd]. split; [reflexivity|].
   intros Ht. apply timeout_iff_timer. cbn [queue]. unfold has_timer. rewrite existsb_app. cbn.
   rewrite Z.eqb_refl. assert (H0 : (0 <=? t) = true) by lia. rewrite H0. cbn. apply orb_true_r.
 Qed.
